@@ -13,7 +13,14 @@ register(PropSpec(
     engines=[EngineSpec("exec", gen, mon_exec.mon_c04, mon_exec.tags_c04, quick_n=250, thorough_n=6000, mask=mon_exec.mask_unmodelled,
                         hyp_alarm={"listedfinal=1": ("C04/final-record-listed-when-the-timeout-step-runs",
                                                      "the model (which agrees with the node on this history) reaches a block whose timeout step finds a SUCCESS / FAILURE / "
-                                                     "ROLLBACK record on the list of that height: the hypothesis of C04_block_final_stays fails and the step overwrites the final status")})],
+                                                     "ROLLBACK record on the list of that height: the hypothesis of C04_block_final_stays fails and the step overwrites the final status"),
+                                   "openinv=0": ("C04/open-record-listed-twice-or-on-another-deadline",
+                                                 "the model (which agrees with the node on this history) ends a block with an open one-to-one record that is on a timeout list of a "
+                                                 "height still to come twice, or on the list of another height than its record names: the hypothesis OpenInv of "
+                                                 "C04_block_finalising_unlists fails, a receipt would not take it off that list and the timeout step would overwrite the final status"),
+                                   "abort=1": ("C04/timeout-bookkeeping-abandoned",
+                                               "the model (which agrees with the node on this history) abandons the timeout bookkeeping of a whole block (a successful receipt "
+                                               "without any record): accepted requests of that block are not booked and answered ones stay listed")})],
     facts=["txFsm"],
     rule="exec engine: per transaction id a generated life (request with timeout 0/1/2/3/4/10/huge/negative, success/failure/rollback receipts "
          "before/at/after the deadline, repeated and out-of-protocol receipts, unrelated and empty blocks); GetStatus observed after every block; "
